@@ -4,6 +4,7 @@ import (
 	"crypto/sha256"
 	"encoding/hex"
 	"fmt"
+	"math/big"
 	"math/rand"
 	"sort"
 
@@ -359,6 +360,38 @@ func pegRequests(rng *rand.Rand, g *world.Gen) func(uint32, *world.BlockSpec) {
 		var last map[int]uint64
 		for hh := h - 1; hh >= g.B.W.Spec.First && last == nil; hh-- {
 			last = l.Rates[hh]
+		}
+		// static prices: the rates of the executing block are known now, so the total
+		// can be put a single unit above the bank -- every share is rounded down and
+		// the rounding dust (2 units for three requests) goes to the largest request,
+		// which then gets more PEG than it asked for
+		if g.P.Jitter == 0 && g.P.PriceStep == 0 && last != nil && last[model.PEG] > 0 && rng.Intn(2) == 0 {
+			want := []uint64{model.LegacyBank * 2 / 5, model.LegacyBank * 2 / 5, model.LegacyBank/5 + 1}
+			var txs []world.TxSpec
+			used := map[int]bool{}
+			for _, r := range want {
+				for _, x := range cands {
+					rs, rp := last[x.asset], last[model.PEG]
+					if used[x.ref] || rs == 0 {
+						continue
+					}
+					a := new(big.Int).Mul(new(big.Int).SetUint64(r), new(big.Int).SetUint64(rp))
+					a.Add(a, new(big.Int).SetUint64(rs-1))
+					a.Div(a, new(big.Int).SetUint64(rs))
+					back := new(big.Int).Mul(a, new(big.Int).SetUint64(rs))
+					back.Div(back, new(big.Int).SetUint64(rp))
+					if !a.IsUint64() || a.Uint64() > x.amt || back.Cmp(new(big.Int).SetUint64(r)) != 0 {
+						continue
+					}
+					used[x.ref] = true
+					txs = append(txs, txFrom(x.ref, nextNonce(), world.TxPart{Asset: x.asset, Amt: a.Uint64(), Conv: model.PEG}))
+					break
+				}
+			}
+			if len(txs) == len(want) {
+				bs.Tx = append(bs.Tx, txs...)
+				return
+			}
 		}
 		n := []int{1, 1, 2, 3, 5, 8}[rng.Intn(6)]
 		equal := rng.Intn(3) == 0
